@@ -27,3 +27,66 @@ Definition op_strip_suffix (k : kstring) (p : bytes) : vres :=
 
 (* input.as_str().repeat(n) for n >= 0 *)
 Definition op_repeat (s : bytes) (n : N) : bytes := repeat_bytes s (N.to_nat n).
+
+(* ---------- pattern-taking functions: trim variants and replace ---------- *)
+
+(* str::trim_start_matches(&str): strip leading repetitions of the pattern (the searcher's first
+   reject); the empty pattern strips nothing *)
+Fixpoint trim_start_fuel (fuel : nat) (p s : bytes) : bytes :=
+  match fuel with
+  | O => s
+  | S f => if is_prefix p s then trim_start_fuel f p (drop (len p) s) else s
+  end.
+Definition trim_start_matches (p s : bytes) : bytes :=
+  match p with [] => s | _ => trim_start_fuel (length s) p s end.
+
+(* str::trim_end_matches(&str): the same from the back *)
+Definition trim_end_matches (p s : bytes) : bytes := rev (trim_start_matches (rev p) (rev s)).
+
+(* core.string trim / trim_start / trim_end with a pattern, as written:
+     let trimmed_start = s.trim_start_matches(p); let trimmed_end = trimmed_start.trim_end_matches(p);
+     let new_start = input.len() - trimmed_start.len(); let new_end = new_start + trimmed_end.len();
+     input.with_bounds(new_start..new_end).unwrap() *)
+Definition op_trim (k : kstring) (p : bytes) : vres :=
+  vbind (ks_as_str k) (fun s =>
+    let ts := trim_start_matches p s in
+    let te := trim_end_matches p ts in
+    let new_start := len s - len ts in
+    let new_end := new_start + len te in
+    of_unwrap (ks_with_bounds k new_start new_end)).
+
+Definition op_trim_start (k : kstring) (p : bytes) : vres :=
+  vbind (ks_as_str k) (fun s =>
+    let ts := trim_start_matches p s in
+    of_unwrap (ks_with_bounds k (len s - len ts) (len s))).
+
+Definition op_trim_end (k : kstring) (p : bytes) : vres :=
+  vbind (ks_as_str k) (fun s =>
+    let te := trim_end_matches p s in
+    of_unwrap (ks_with_bounds k 0 (len te))).
+
+(* str::replace: leftmost non-overlapping matches; the empty pattern matches at every character boundary *)
+Fixpoint replace_fuel (fuel : nat) (p r s : bytes) : bytes :=
+  match fuel with
+  | O => s
+  | S f =>
+      if is_prefix p s then r ++ replace_fuel f p r (drop (len p) s)
+      else match s with
+           | [] => []
+           | b :: t => b :: replace_fuel f p r t
+           end
+  end.
+Fixpoint replace_empty (fuel : nat) (r s : bytes) : bytes :=
+  match fuel with
+  | O => r
+  | S f =>
+      match s with
+      | [] => r
+      | b :: _ => let n := lead_len b in r ++ take n s ++ replace_empty f r (drop n s)
+      end
+  end.
+Definition op_replace (s p r : bytes) : bytes :=
+  match p with
+  | [] => replace_empty (length s) r s
+  | _ => replace_fuel (S (length s)) p r s
+  end.
